@@ -35,4 +35,35 @@ def INIT : BitVec 32 := 0xFFFFFFFF#32
 /-- `crc32.ChecksumIEEE` -/
 def crc32 (bs : List UInt8) : BitVec 32 := ~~~ (update INIT bs)
 
+/-! ### the table-driven form (what `hash/crc32`'s generic implementation does, and what the compiled
+model driver runs): one table look-up per byte, on machine words.  `Lemmas/Crc32.lean` proves
+`crc32T = crc32` for every input (`crc32_table_eq`); the codec model calls `crc32T`, the theorems
+speak about the bitwise `crc32`. -/
+
+/-- eight zero-input bit steps -/
+def shift8 (s : BitVec 32) : BitVec 32 :=
+  stepBit (stepBit (stepBit (stepBit (stepBit (stepBit (stepBit (stepBit s
+    false) false) false) false) false) false) false) false
+
+/-- the 256-entry table, computed by the bitwise step -/
+def table : Array (BitVec 32) := Array.ofFn (n := 256) (fun i => shift8 (BitVec.ofNat 32 i.val))
+
+/-- one byte on bit vectors: `table[(s ^ b) & 0xff] ^ (s ^ b) >> 8` (stepping stone of the proof) -/
+def stepByteB (s : BitVec 32) (b : UInt8) : BitVec 32 :=
+  let x := s ^^^ BitVec.ofNat 32 b.toNat
+  table[(x &&& 0xff#32).toNat]! ^^^ (x >>> 8)
+
+/-- the same table as machine words -/
+def tableU : Array UInt32 := table.map UInt32.ofBitVec
+
+/-- one byte on machine words -/
+def stepByteT (s : UInt32) (b : UInt8) : UInt32 :=
+  let x := s ^^^ b.toUInt32
+  tableU[(x &&& 0xff).toNat]! ^^^ (x >>> 8)
+
+def updateT (s : UInt32) (bs : List UInt8) : UInt32 := bs.foldl stepByteT s
+
+/-- table-driven `crc32.ChecksumIEEE` -/
+def crc32T (bs : List UInt8) : BitVec 32 := ~~~ (updateT 0xFFFFFFFF bs).toBitVec
+
 end Fatchoy.Crc32
